@@ -230,3 +230,31 @@ Definition entry_unsub_documented_ok (args : list Z) : list Z :=
   | Some a => [b2z (unsub_documented_ok a)]
   | None => [-2]
   end.
+
+(* combined entries (one pass over large batches) *)
+(* 10: bytes -> [filter_check; spec_filter_ok; topic_check result code] *)
+Definition entry_strings_all (args : list Z) : list Z :=
+  match take_bytes args with
+  | Some (s, []) => filter_check s :: b2z (spec_filter_ok s) :: enc_res (fun _ => []) (topic_check s)
+  | _ => [-2]
+  end.
+
+(* 11: input of 4 -> [publish_args_check result code; spec_publish_ok; spec_topic_ok] *)
+Definition entry_publish_both (args : list Z) : list Z :=
+  match args with
+  | v :: q :: k :: n :: rest =>
+      match take_bytes rest with
+      | Some (s, []) =>
+          enc_res (fun _ => []) (publish_args_check (dec_version v) s q (dec_pkind k) n) ++
+          [b2z (spec_publish_ok (dec_version v) s q (dec_pkind k) n); b2z (spec_topic_ok (dec_version v) s)]
+      | _ => [-2]
+      end
+  | _ => [-2]
+  end.
+
+(* 12: input of 5 -> documented_ok :: documented_shape :: result of 5 *)
+Definition entry_subscribe_both (args : list Z) : list Z :=
+  match parse_sub_call args with
+  | Some (v, a) => b2z (documented_ok v a) :: b2z (documented_shape v a) :: enc_res enc_pairs (subscribe_norm v a)
+  | None => [-2]
+  end.
